@@ -147,6 +147,40 @@ func Build(s *St) *sm.SeatManager {
 	return m
 }
 
+// BuildFaithful runs genuine histories that put the button and the blinds on every seat (seat 0
+// included) and checks that Build reproduces each state they pass through: same snapshot, same
+// pointer identities. Build goes through exported setters (SetDealer, ...) that are not among the
+// operations of the properties; if they stop being faithful the accelerator must not be used.
+func BuildFaithful() (bool, string) {
+	for _, n := range []int{2, 3, 4} {
+		m := sm.NewSeatManager(n)
+		var hist []string
+		do := func(op Op) {
+			Apply(m, op)
+			hist = append(hist, op.Label())
+		}
+		for i := 0; i < n; i++ {
+			do(Op{"Join", i})
+			do(Op{"Seat", i})
+		}
+		for k := 0; k < 2*n+1; k++ {
+			do(Op{Kind: "Next"})
+			want := Snap(m, n)
+			got := Build(want)
+			if a, b := want.String(), Snap(got, n).String(); a != b {
+				return false, fmt.Sprintf("after %v the seat manager is %s, rebuilt through the exported setters it is %s", hist, a, b)
+			}
+			if a, b := identity(m), identity(got); a != b {
+				return false, fmt.Sprintf("after %v the position records are %s, rebuilt they are %s", hist, a, b)
+			}
+			if k == n {
+				do(Op{"Reserve", 0})
+			}
+		}
+	}
+	return true, ""
+}
+
 func seatID(x *sm.Seat) int {
 	if x == nil {
 		return -1
